@@ -272,37 +272,6 @@ def rule_5(ctx):
     ctx.floor(12, 'range registry cells')
 
 
-def _range_models():
-    import collections
-    import re as _re
-
-    def range_boundaries(text):
-        m = _re.fullmatch(r'\$?([A-Z]+)\$?(\d+)(?::\$?([A-Z]+)\$?(\d+))?', text)
-        if not m:
-            raise Unmodelled(f'range_boundaries model: {text!r}')
-
-        def col(c):
-            n = 0
-            for ch in c:
-                n = n * 26 + ord(ch) - 64
-            return n
-        c1, r1, c2, r2 = m.group(1), int(m.group(2)), m.group(3) or m.group(1), int(m.group(4) or m.group(2))
-        return (col(c1), r1, col(c2), r2)
-
-    def letter(n):
-        out = ''
-        while n:
-            n, r = divmod(n - 1, 26)
-            out = chr(65 + r) + out
-        return out
-    return {
-        'ext:openpyxl.utils.cell.range_boundaries': range_boundaries,
-        'ext:openpyxl.utils.cell.get_column_letter': letter,
-        'ext:collections.defaultdict': lambda f=None: collections.defaultdict(set),
-        'pkg:utils:resolve_sheet': lambda t: t.strip().strip("'"),
-    }
-
-
 def rule_6(ctx):
     """Row-major, inclusive expansion decided on witness rectangles (openpyxl helpers replaced by models)."""
     um = ctx.mod('utils')
